@@ -387,6 +387,10 @@ S["async_1_2_3"] = dict(
 # a triggering connection that is also declared with async_requests
 S["async_trigger"] = dict(until=5, sims=[T("A", 2), H("M"), T("X")],
                           conns=[dict(C("A", "M", "po", "ti"), **{"async": True})])
+# a producer with an async-request agent AND an ordinary consumer
+S["async_plus_consumer"] = dict(
+    until=4, sims=[T("P"), T("Ag", 1, **{"async": {"1": [("set", "P.e", "mi")]}}), T("Cc")],
+    conns=[dict(C("P", "Ag", "po", "mi"), **{"async": True}), C("P", "Cc", "po", "mi")])
 S["async_two_writers"] = dict(
     until=3,
     sims=[T("A"),
